@@ -17,11 +17,13 @@ type vxRecorder struct {
 func vxNewRecorder(wf *scipipe.Workflow, name string) *vxRecorder {
 	p := &vxRecorder{BaseProcess: scipipe.NewBaseProcess(wf, name)}
 	p.InitInPort(p, "in")
+	p.InitOutPort(p, "done") // several recorders in one workflow: none of them may be a port-less driver
 	wf.AddProc(p)
 	return p
 }
 
 func (p *vxRecorder) Run() {
+	defer p.CloseAllOutPorts()
 	for ip := range p.InPort("in").Chan {
 		p.got = append(p.got, ip.Path())
 	}
